@@ -552,6 +552,15 @@ class C12:
                     problems.append("`zip` of two sequences (stops at the shorter) with no aborting length assertion")
                 if seg in ("shorten", "truncate", "split_at", "split", "resize") and n.split("::")[-1] not in ("shorten",):
                     problems.append("calls `%s`" % seg)
+                if seg in ("copy_from_slice", "clone_from_slice") and len(t["args"]) >= 2:
+                    # the copied *source* must be the whole value: a sub-slice of it drops limbs
+                    from .capguard import SliceProv
+                    sp = SliceProv(view)
+                    sliced = sorted({mir.last_seg(v) for r in mir.uniq_roots(sp.roots_of_operand(t["args"][1]))
+                                     for v in r.via if mir.last_seg(v) in ("index", "index_mut", "get", "get_unchecked",
+                                                                             "split_at", "split_first", "split_last")})
+                    if sliced:
+                        problems.append("copies only a sub-slice of the source (through `%s`)" % "`, `".join(sliced))
             if problems:
                 self.r.add(Instance(key, "c12.vpfn", "violation",
                                     "`%s` is assumed value-preserving by the NonZero/Odd `derived` rule but contains a "
